@@ -79,6 +79,10 @@ func discharge(ob *Obligation, workDir string, timeoutS int, agree bool) {
 	if ob.Result == "error" {
 		return
 	}
+	if ob.Solver == "syntactic" {
+		// decided by the generator over the SSA body (frame.readsglobals): nothing to ask a solver
+		return
+	}
 	if ob.Timeout > 0 && ob.Timeout > timeoutS {
 		timeoutS = ob.Timeout
 	}
